@@ -10,7 +10,7 @@ use blots_core::values::SerializableValue;
 use proptest::prelude::*;
 use serde::{Deserialize, Serialize};
 
-pub const RULE: &str = "recursive data values (finite doubles over bit patterns and boundaries, strings over all Unicode scalars incl. quotes / backslashes / control characters, keys incl. empty, numeric-looking, needing quotes, composed vs decomposed; depth <= 6; the reserved key __blots_function excluded): (1) value -> from_value -> to_json -> text -> from_str -> from_json -> to_value in a fresh heap, compared bit-exactly and with .== in one heap; (2) JSON text from the harness's own writer (four number spellings, escaped / raw non-ASCII) -> inputs -> `output x = inputs.x` -> JSON text, read by the harness's own JSON parser (Rust's correctly rounded float parser) and compared as JSON values; (3) a sample of both through the real CLI with -i and with piped stdin. Non-trivial = depth >= 2, or a non-integer number, or a non-ASCII string; distinct by serialised value.";
+pub const RULE: &str = "recursive data values (finite doubles over bit patterns and boundaries, strings over all Unicode scalars incl. quotes / backslashes / control characters, keys incl. empty, numeric-looking, needing quotes, composed vs decomposed; depth <= 6; the key __blots_function only with non-string values - numbers, booleans, null, lists, records - which is not the reserved function form): (1) value -> from_value -> to_json -> text -> from_str -> from_json -> to_value in a fresh heap, compared bit-exactly and with .== in one heap; (2) JSON text from the harness's own writer (four number spellings, escaped / raw non-ASCII) -> inputs -> `output x = inputs.x` -> JSON text, read by the harness's own JSON parser (Rust's correctly rounded float parser) and compared as JSON values; (3) a sample of both through the real CLI with -i and with piped stdin. Non-trivial = depth >= 2, or a non-integer number, or a non-ASCII string; distinct by serialised value.";
 pub const ASSUMPTIONS: &[&str] = &[
     "reference number conversion is Rust's str::parse::<f64> (correctly rounded), independent of serde_json's parser",
     "JSON objects with duplicate keys are not generated (their meaning is unspecified in JSON)",
@@ -78,7 +78,7 @@ fn inputs_from_text(sess: &Sess, text: &str) -> Result<(), String> {
     let serde_json::Value::Object(obj) = v else { return Err("not an object".into()) };
     let mut map = indexmap::IndexMap::new();
     for (k, v) in obj.iter() {
-        let sv = SerializableValue::from_json(v);
+        let sv = crate::blots::from_json(v);
         let val = sv.to_value(&mut sess.heap.borrow_mut()).map_err(|e| e.to_string())?;
         map.insert(k.clone(), val);
     }
@@ -111,7 +111,7 @@ impl Check for RoundTrip {
                     Err(e) => fail!("output-not-json", "emitted text {} does not parse as JSON: {}", text, e),
                 };
                 let s2 = Sess::new();
-                let back = match SerializableValue::from_json(&parsed).to_value(&mut s2.heap.borrow_mut()) {
+                let back = match crate::blots::from_json(&parsed).to_value(&mut s2.heap.borrow_mut()) {
                     Ok(b) => b,
                     Err(e) => fail!("reload-fails", "reload failed: {}", e),
                 };
@@ -204,6 +204,41 @@ impl Check for RoundTrip {
     }
 }
 
+/// Rename one key of a record somewhere in `v` to the reserved key `__blots_function` when
+/// the value under it is not a string (such an object is not of the reserved function form and
+/// must come back as the record it is).
+fn with_reserved_key(mut v: MV, pick: u16) -> MV {
+    fn walk(v: &mut MV, left: &mut i32) {
+        match v {
+            MV::Rec(fields) => {
+                if *left >= 0 && !fields.iter().any(|(k, _)| k == "__blots_function") {
+                    if let Some(i) = fields.iter().position(|(_, x)| !matches!(x, MV::Str(_))) {
+                        if *left == 0 {
+                            fields[i].0 = "__blots_function".into();
+                        }
+                        *left -= 1;
+                    }
+                }
+                for (_, x) in fields.iter_mut() {
+                    walk(x, left);
+                }
+            }
+            MV::List(items) => {
+                for x in items.iter_mut() {
+                    walk(x, left);
+                }
+            }
+            _ => {}
+        }
+    }
+    // one in four values gets the key, at the (pick / 4 % 3)-th eligible record
+    if pick % 4 == 0 {
+        let mut left = (pick / 4 % 3) as i32;
+        walk(&mut v, &mut left);
+    }
+    v
+}
+
 pub fn run(ctx: &mut Ctx) {
     let fixed: Vec<MV> = vec![
         MV::Num(F(-0.0)),
@@ -217,6 +252,9 @@ pub fn run(ctx: &mut Ctx) {
         MV::Rec(vec![("".into(), MV::Null), ("1".into(), MV::Bool(true)), ("a b".into(), MV::List(vec![])), ("é".into(), MV::Num(F(1.0))), ("e\u{301}".into(), MV::Num(F(2.0)))]),
         MV::List(vec![MV::List(vec![MV::List(vec![MV::List(vec![MV::List(vec![MV::Rec(vec![])])])])])]),
         MV::Rec(vec![("__blots_function".into(), MV::Num(F(1.0)))]),
+        MV::Rec(vec![("a".into(), MV::Num(F(1.0))), ("__blots_function".into(), MV::Null), ("b".into(), MV::Str("x".into()))]),
+        MV::List(vec![MV::Rec(vec![("k".into(), MV::Rec(vec![("__blots_function".into(), MV::List(vec![MV::Str("x => x".into())])), ("z".into(), MV::Bool(true))]))])]),
+        MV::Rec(vec![("__blots_function".into(), MV::Rec(vec![("__blots_function".into(), MV::Bool(false))]))]),
         MV::Rec(vec![("__blots_functions".into(), MV::Str("x => x".into()))]),
     ];
     let mut cases = Vec::new();
@@ -230,11 +268,11 @@ pub fn run(ctx: &mut Ctx) {
     }
     ctx.run_enum(&RoundTrip, cases.into_iter(), false);
     let n = ctx.tier.pick(40_000, 1_200_000);
-    ctx.run_random(&RoundTrip, crate::gen_::data_mv(5).prop_map(Case::Value), n);
-    ctx.run_random(&RoundTrip, (crate::gen_::data_mv(5), 0u8..4).prop_map(|(value, style)| Case::Doc { value, style }), n);
+    ctx.run_random(&RoundTrip, (crate::gen_::data_mv(5), any::<u16>()).prop_map(|(v, k)| Case::Value(with_reserved_key(v, k))), n);
+    ctx.run_random(&RoundTrip, (crate::gen_::data_mv(5), 0u8..4, any::<u16>()).prop_map(|(value, style, k)| Case::Doc { value: with_reserved_key(value, k), style }), n);
     ctx.run_random(
         &RoundTrip,
-        (crate::gen_::data_mv(4), 0u8..4, any::<bool>()).prop_map(|(value, style, stdin)| Case::Cli { value, style, stdin }),
+        (crate::gen_::data_mv(4), 0u8..4, any::<bool>(), any::<u16>()).prop_map(|(value, style, stdin, k)| Case::Cli { value: with_reserved_key(value, k), style, stdin }),
         ctx.tier.pick(400, 8_000),
     );
 }
